@@ -14,7 +14,9 @@
                            rstream/pstream = request.stream / response.stream
      Http1Server:          hs (state), hsrq/hsrs (request_done/response_done), hsgone (stream_id has moved on to the
                            next exchange, so send() for the current stream fails its stream-id assertion)
-     Http1Client:          hc (state), hcsid (stream_id set), hcrq/hcrs, hceof (body read until EOF)
+     Http1Client:          hc (state), hcsid (stream_id set), hcrq/hcrs, hceof (body read until EOF), hcbad (self.response
+                           is a head whose framing could not be determined, see BadFrameKept)
+     x                     an exception escaped in this feed: nothing else of the feed happens
      connections:          cc / sc in "open" | "fin" (peer sent EOF, we may still write) | "wfin" (we half-closed)
                            | "closing" (closed by command, ConnectionClosed not yet delivered) | "closed"
                            plus for the server "none" | "opening" | "failed"
@@ -24,13 +26,17 @@
      err_inv_rs (check_invalid(False)).                                                               *)
 EXTENDS Mon_HttpFlow, TLC
 CONSTANTS ReqKinds,        \* subset of {"get","post","chunked","badval","badframe","garbage"}
-          RespKinds,       \* subset of {"cl","nobody","eof","badval","garbage"}
+          RespKinds,       \* subset of {"cl","nobody","eof","badval","badframe","garbage"}
           Policies,        \* record: hook class -> set of addon policies, classes rh rq rqs rsh rs err
           MaxFlows, MaxReqChunks, MaxRespChunks,
-          FixUpstream      \* named deviation: TRUE = handle_protocol_error also sets server_state = errored when it forwards
+          FixUpstream,     \* named deviation: TRUE = handle_protocol_error also sets server_state = errored when it forwards
                            \* a client error upstream (the code since /repo commit 3a57873aa); FALSE = it leaves
                            \* server_state untouched (the code as first found, findings_proposed/C03.md) -- only used to
                            \* show that the monitor's clauses are reachable in the pre-repair model
+          BadFrameKept     \* named deviation: TRUE = Http1Client.read_headers keeps self.response when the head parsed but
+                           \* expected_http_body_size raised (the code as found, findings_proposed/C03.md addendum): the
+                           \* unguarded expected_http_body_size(self.request, self.response) in send(RequestEndOfMessage)
+                           \* then raises ValueError; FALSE = the response is only kept once its framing is known
 VARIABLES s, mon, obs, ended
 vars == <<s, mon, obs, ended>>
 
@@ -39,12 +45,12 @@ W0 == [f |-> 0, strm |-> "none", cs |-> "none", ss |-> "uninit", pc |-> "", nest
        nrb |-> FALSE, npb |-> FALSE, rkind |-> "", pkind |-> "", nreq |-> 0, nresp |-> 0,
        cc |-> "open", hs |-> "read_headers", hsrq |-> FALSE, hsrs |-> FALSE, hsgone |-> FALSE,
        sc |-> "none", hc |-> "none", hcsid |-> FALSE, hcrq |-> FALSE, hcrs |-> FALSE, hceof |-> FALSE,
-       out |-> <<>>]
+       hcbad |-> FALSE, x |-> FALSE, out |-> <<>>]
 
 Init == s = W0 /\ mon = MonInit /\ obs = <<>> /\ ended = FALSE
 Live == mon.bad = <<>> /\ ~ended
 Emit(evs) == obs' = evs /\ mon' = FoldEvents(MonStep, mon, evs)
-Commit(w) == s' = [w EXCEPT !.out = <<>>] /\ Emit(w.out) /\ UNCHANGED ended
+Commit(w) == s' = [w EXCEPT !.out = <<>>, !.x = FALSE] /\ Emit(w.out) /\ UNCHANGED ended
 Begin(a, x) == [s EXCEPT !.out = <<[k |-> "env", a |-> a, x |-> x]>>]
 
 FlowLive(w) == w.lives[w.f]
@@ -69,15 +75,19 @@ ToClientEom(w) ==
   ELSE [w1 EXCEPT !.hs = "read_headers", !.hsrq = FALSE, !.hsrs = FALSE, !.hsgone = TRUE]
 \* An exception escapes from handle_event: the rest of the feed does not happen; queued events stay in the queue of a
 \* stream that is never resumed again (it has been dropped), so they are forgotten here.
-Crash(w, exc) == [w EXCEPT !.q = <<>>, !.out = Append(@, [k |-> "raised", exc |-> exc])]
+\* (A stream that is still registered keeps its queue: it is replayed after the next hook of that stream.)
+Crash(w, exc) == [w EXCEPT !.q = IF w.strm = "live" THEN @ ELSE <<>>, !.x = TRUE,
+                           !.out = Append(@, [k |-> "raised", exc |-> exc])]
 
 \* ---- Http1Client.send / mark_done ----
 ToServerHdr(w) == [w EXCEPT !.hcsid = TRUE]
 ToServerErr(w) == CloseS(w)                       \* RequestProtocolError -> CloseConnection
 ClientBothDone(w) ==                              \* Http1Connection.mark_done with request_done and response_done
   IF w.hceof THEN [CloseS(w) EXCEPT !.hc = "done"]
-  ELSE [w EXCEPT !.hc = "read_headers", !.hcsid = FALSE, !.hcrq = FALSE, !.hcrs = FALSE, !.hceof = FALSE]
+  ELSE [w EXCEPT !.hc = "read_headers", !.hcsid = FALSE, !.hcrq = FALSE, !.hcrs = FALSE, !.hceof = FALSE, !.hcbad = FALSE]
 ToServerEom(w) ==                                 \* RequestEndOfMessage
+  IF w.rkind # "chunked" /\ w.hcbad THEN Crash(w, "ValueError")   \* expected_http_body_size(req, kept bad response)
+  ELSE
   LET w1 == IF w.rkind # "chunked" /\ w.hceof THEN HalfCloseS(w) ELSE w   \* expected_http_body_size(req, resp) = -1
       w2 == [w1 EXCEPT !.hcrq = TRUE]
   IN IF w2.hcrs THEN ClientBothDone(w2) ELSE w2
@@ -118,7 +128,7 @@ GetConn(w, nest) ==
   IF w.sc = "failed" THEN ConnFail([w EXCEPT !.nest = nest])
   ELSE IF w.sc = "open" THEN ConnOk([w EXCEPT !.nest = nest])
   ELSE [w EXCEPT !.pc = "conn", !.nest = nest, !.sc = "opening", !.hc = "none", !.hcsid = FALSE, !.hcrq = FALSE,
-                 !.hcrs = FALSE, !.hceof = FALSE]
+                 !.hcrs = FALSE, !.hceof = FALSE, !.hcbad = FALSE]
 
 RespHdr(w) ==
   LET w1 == [w EXCEPT !.respsrc = "server", !.npb = (w.pkind = "nobody")] IN
@@ -152,7 +162,8 @@ Cont(w, pc) ==
                     ELSE GetConn(w, "consume")
     [] pc = "rsh_emul" -> IF Killed(w) THEN KillPath(w) ELSE SendResp(w, FALSE)
     [] pc = "err_pe" -> AfterPE(PE2(w, w.pek))
-    [] pc = "rq_s" -> LET w1 == ToServerEom([w EXCEPT !.cs = "done"]) IN IF w1.ss = "done" THEN FlowDone(w1) ELSE w1
+    [] pc = "rq_s" -> LET w1 == ToServerEom([w EXCEPT !.cs = "done"]) IN
+                      IF w1.x THEN w1 ELSE IF w1.ss = "done" THEN FlowDone(w1) ELSE w1
     [] pc = "rsh" -> IF Killed(w) THEN KillPath(w)
                      ELSE [w EXCEPT !.ss = IF w.pstream /\ ~w.npb THEN "stream" ELSE "consume"]
     [] pc = "rs" -> LET w1 == [w EXCEPT !.ss = "done"] IN
@@ -160,7 +171,7 @@ Cont(w, pc) ==
 
 \* Layer.__continue: after the continuation, replay queued events until paused again
 RECURSIVE Drain(_)
-Drain(w) == IF w.pc = "" /\ w.q # <<>> THEN Drain(H([w EXCEPT !.q = Tail(@)], Head(w.q))) ELSE w
+Drain(w) == IF ~w.x /\ w.pc = "" /\ w.q # <<>> THEN Drain(H([w EXCEPT !.q = Tail(@)], Head(w.q))) ELSE w
 
 \* HttpLayer.event_to_child(ReceiveHttp): unknown stream ids are ignored; Layer.handle_event queues while paused
 Recv(w, ev) == IF w.strm # "live" THEN w
@@ -222,7 +233,8 @@ OpenDone(ok) ==
 ServerHead(kind) ==
   /\ Live /\ s.sc \in {"open", "wfin"} /\ s.hc = "read_headers" /\ s.hcsid
   /\ LET w == [Begin("ServerHead", kind) EXCEPT !.pkind = kind] IN
-     CASE kind = "garbage" -> Commit(Recv(CloseS(w), "rs_err"))
+     CASE kind = "garbage" -> Commit(Recv(CloseS(w), "rs_err"))        \* head unparsable: close, ResponseProtocolError
+       [] kind = "badframe" -> Commit(Recv([CloseS(w) EXCEPT !.hcbad = BadFrameKept], "rs_err"))   \* framing undecidable
        [] kind = "nobody" -> Commit(MarkRespDone(Recv([Recv(w, "rs_hdr") EXCEPT !.hc = "read_body"], "rs_eom")))
        [] kind = "eof" -> Commit([Recv(w, "rs_hdr") EXCEPT !.hc = "read_body", !.hceof = TRUE])
        [] OTHER -> Commit([Recv(w, "rs_hdr") EXCEPT !.hc = "read_body"])
